@@ -45,6 +45,19 @@ DATA = json.dumps([
 ])
 
 
+SM = "http://a.ml/vocabularies/document-source-maps#"
+DUP_LEX_DATA = json.dumps(json.loads(DATA) + [
+    {"@id": "http://example.org/n1/source-map", "@type": [SM + "SourceMap"], SM + "lexical": [{"@id": "http://example.org/n1/sm/e0"}]},
+    {"@id": "http://example.org/n1/sm/e0", SM + "element": "http://example.org/n1", SM + "value": "[(1,2)-(3,4)]"},
+    {"@id": "http://example.org/extra/source-map", "@type": [SM + "SourceMap"], SM + "lexical": [{"@id": "http://example.org/extra/sm/e0"}]},
+    {"@id": "http://example.org/extra/sm/e0", SM + "element": "http://example.org/n1", SM + "value": "[(50,60)-(70,80)]"},
+    {"@id": "http://example.org/zzz/source-map", "@type": [SM + "SourceMap"], SM + "lexical": [{"@id": "http://example.org/zzz/sm/e0"}]},
+    {"@id": "http://example.org/zzz/sm/e0", SM + "element": "http://example.org/n1", SM + "value": "[(9,9)-(9,9)]"},
+    {"@id": "amf://id/BaseUnitSourceInformation", "@type": ["http://a.ml/vocabularies/document#BaseUnitSourceInformation"],
+     "http://a.ml/vocabularies/document#rootLocation": "file:///root.raml"},
+])
+
+
 def run(tier):
     t0 = time.time()
     V = vlib.Verdict("C06")
@@ -63,6 +76,7 @@ def run(tier):
     for s in (2, 3, 4):
         for d in (1, 2, 3):
             inputs.append(("quant-s%d-d%d" % (s, d), quantified_profile(s, d, 2), DATA))
+    inputs.append(("duplicate-lexical-entries", quantified_profile(2, 1, 1), DUP_LEX_DATA))
     inputs.append(("rich", c15.RICH_PROFILE, c15.RICH_DATA))
     inputs.append(("ok", corpus.OK_PROFILE, c09.DOCS["fail3"]))
     inputs.append(("nested", corpus.OK_PROFILE_NESTED, c09.DOCS["failNested"]))
